@@ -570,6 +570,20 @@ def hunks_between(old, new):
     return a, b, [(i1, i2, j1, j2) for tag, i1, i2, j1, j2 in sm.get_opcodes() if tag != "equal"]
 
 
+def split_insertions(rng, hunks, p=0.5):
+    """what `git add -p` offers with 's' / 'e': a block of inserted lines can be staged in part.  Splits
+    pure-insertion hunks of two or more lines at a drawn point into two pure-insertion sub-hunks"""
+    out = []
+    for (i1, i2, j1, j2) in hunks:
+        if i1 == i2 and j2 - j1 >= 2 and rng.random() < p:
+            m = rng.randint(j1 + 1, j2 - 1)
+            out.append((i1, i2, j1, m))
+            out.append((i1, i2, m, j2))
+        else:
+            out.append((i1, i2, j1, j2))
+    return out
+
+
 def apply_hunks(a, b, hunks, chosen):
     out = []
     pos = 0
@@ -604,6 +618,7 @@ def fam_partial_blocks(g):
         old = head.out if head.code == 0 else ""
         new = g.w.read(g.repo, f)
         a, b, hunks = hunks_between(old, new)
+        hunks = split_insertions(rng, hunks, 0.3)
         if len(hunks) < 2:
             break
         chosen = set(rng.sample(range(len(hunks)), rng.randint(1, max(1, len(hunks) - 2))))
@@ -655,7 +670,9 @@ def fam_partial(g):
             old = head.out if head.code == 0 else ""
             new = g.w.read(g.repo, f)
             a, b, hunks = hunks_between(old, new)
+            hunks = split_insertions(rng, hunks, 0.5)
             if len(hunks) >= 2:
+                g.ex.probe("partial.block_split_inside")
                 chosen = set(rng.sample(range(len(hunks)), rng.randint(1, len(hunks) - 1)))
                 if g.gated("partial_unstaged_nonpure_hunk"):
                     # known finding: what stays unstaged must be pure insertions
